@@ -19,6 +19,7 @@ from harness import engine_common as E
 from harness.gen_engine_tables import render
 
 logging.getLogger("werkzeug").setLevel(logging.ERROR)
+DRIVERS = ("Engine",)
 EXTRA_TARGETS = ("SV.Props.C12",)
 KF_SETTINGS = "C12:create_test:user-settings-merge-raises-for-every-operation"
 
